@@ -195,6 +195,17 @@ func (x *Run) initTables(st *State) {
 			if v, ok := outs[0].st.globals[g]; ok {
 				st.globals[g] = v
 			}
+			// a map-typed table lives in the map arrays of its type: import the
+			// rows the initialiser built (new map objects have negative
+			// references, distinct from everything in the unit's initial heap)
+			if mt := mapTypeOf(g.Type().(*types.Pointer).Elem()); mt != nil {
+				a := x.mapArrs(mt)
+				for _, n := range []string{a.dom, a.val, a.ln} {
+					if t, ok := outs[0].st.heap[n]; ok {
+						st.heap[n] = t
+					}
+				}
+			}
 			if !copiedPC {
 				copiedPC = true
 				for _, c := range outs[0].st.pc {
